@@ -64,6 +64,34 @@ Definition load_members_entry (args : list sx) : sx :=
   | _ => bad_args
   end.
 
+(* range_formula: rows of cells, a cell = [] (anything else) or [text; i; j; h; w];
+   answer: (True, text) or (False,) *)
+Definition dec_cell (c : sx) : option sheet_cell :=
+  match c with
+  | SL [] => Some Other
+  | SL [t; SZ i; SZ j; SZ h; SZ w] =>
+      match dec_val t with Some (VStr f) => Some (Member f (i, j, h, w)) | _ => None end
+  | _ => None
+  end.
+Fixpoint dec_all {A} (d : sx -> option A) (l : list sx) : option (list A) :=
+  match l with
+  | [] => Some []
+  | x :: l' => match d x, dec_all d l' with Some a, Some r => Some (a :: r) | _, _ => None end
+  end.
+Definition range_formula_entry (args : list sx) : sx :=
+  match args with
+  | [SL rows] =>
+      match dec_all (fun r => match r with SL cs => dec_all dec_cell cs | _ => None end) rows with
+      | Some cells =>
+          enc_res (Ok match range_formula cells with
+                      | Some f => VTuple [VBool true; VStr f]
+                      | None => VTuple [VBool false]
+                      end)
+      | None => bad_args
+      end
+  | _ => bad_args
+  end.
+
 Definition table : list entry :=
   [ E "op_fixup" (op_entry op_fixup)
   ; E "array_fixup" (op_entry array_fixup)
@@ -71,6 +99,7 @@ Definition table : list entry :=
   ; E "cse_probe" cse_probe_entry
   ; E "target_cells" cse_members_entry
   ; E "load_members" load_members_entry
+  ; E "range_formula" range_formula_entry
   ].
 
 Definition dispatch (name : list Z) (args : list sx) : sx :=
